@@ -237,6 +237,22 @@ type Obligation struct {
 
 func (o *Obligation) Query(produceModels bool) string { return o.query(produceModels, false) }
 
+// norecQuery is the query without the defining axioms of recursive spec functions (they
+// become uninterpreted; sound: fewer hypotheses).  Nonlinear definitions otherwise keep
+// the solvers from answering goals that do not depend on them.
+func (o *Obligation) norecQuery() string {
+	q := o.query(false, false)
+	var b strings.Builder
+	for _, l := range strings.Split(q, "\n") {
+		if strings.HasPrefix(l, "(assert (forall") && strings.Contains(l, ":pattern ((spec.") && strings.Contains(l, "!") {
+			continue
+		}
+		b.WriteString(l)
+		b.WriteByte('\n')
+	}
+	return b.String()
+}
+
 // query renders the SMT-LIB text.  The light variant drops every quantified
 // hypothesis (sound: fewer hypotheses); only its unsat answers are used.
 func (o *Obligation) query(produceModels, light bool) string {
@@ -328,6 +344,15 @@ func solveWith(o *Obligation, dir string, timeoutS int, wantModel bool, shift in
 	ctx, cancel := context.WithCancel(context.Background())
 	defer cancel()
 	runs := append([]solverSpec(nil), solvers...)
+	if o.expect() == "unsat" && strings.Contains(q, "(declare-fun spec.") && strings.Contains(q, "!1 (") {
+		norecFile := strings.TrimSuffix(file, ".smt2") + ".norec.smt2"
+		if err := os.WriteFile(norecFile, []byte(o.norecQuery()), 0o644); err == nil {
+			defer os.Remove(norecFile)
+			runs = append(runs, solverSpec{"z3-new/norec", func(f string, t int) []string {
+				return []string{"z3-new", fmt.Sprintf("-T:%d", t), norecFile}
+			}})
+		}
+	}
 	if lightFile != "" {
 		runs = append(runs, solverSpec{"z3-new/light", func(f string, t int) []string {
 			return []string{"z3-new", fmt.Sprintf("-T:%d", t), lightFile}
@@ -362,7 +387,7 @@ func solveWith(o *Obligation, dir string, timeoutS int, wantModel bool, shift in
 			case "timeout":
 				v = "timeout"
 			}
-			if s.name == "z3-new/light" && v == "sat" {
+			if (s.name == "z3-new/light" || s.name == "z3-new/norec") && v == "sat" {
 				v = "unknown" // a model of fewer hypotheses means nothing
 			}
 			ch <- res{s.name, v, out.String(), time.Since(t0).Seconds()}
